@@ -60,7 +60,8 @@ def run(ctx):
         if bb in accepts:
             continue
         nw += 1
-        w_ = facts.effects_at(a, bb) & WAITS
+        # (what the call does: virtual calls count where they are made, not where the trait object is built)
+        w_ = facts.effects_at(a, bb, creator=False, deep=True) & WAITS
         if w_:
             badw.append("%s: %s at %s" % (short(call_name(t)), sorted(w_), a.loc(bb)))
     ctx.ob("C08.3", "accept-thread|waits-for-no-client", "between two `accept()` calls the accept thread does nothing that can wait for a client (no read from an accepted socket, no wait for a turn, a message or a condition)",
